@@ -14,7 +14,7 @@ from _griffe.c3linear import c3linear_merge
 from _griffe.docstrings.parsers import DocstringStyle, parse
 from _griffe.enumerations import Kind, ParameterKind, Parser
 from _griffe.exceptions import AliasResolutionError, BuiltinModuleError, CyclicAliasError, NameResolutionError
-from _griffe.expressions import ExprCall, ExprName
+from _griffe.expressions import ExprAttribute, ExprCall, ExprName
 from _griffe.logger import logger
 from _griffe.mixins import ObjectAliasMixin
 
@@ -1986,6 +1986,16 @@ class Class(Object):
                 resolved_base = self.modules_collection.get_member(base_path)
                 if resolved_base.is_alias:
                     resolved_base = resolved_base.final_target
+                # A base can be named through a plain assignment (`Base = Class`):
+                # follow such attributes down to the object they name.
+                followed = {resolved_base.path}
+                while resolved_base.is_attribute and isinstance(resolved_base.value, (ExprName, ExprAttribute)):
+                    resolved_base = self.modules_collection.get_member(resolved_base.value.canonical_path)
+                    if resolved_base.is_alias:
+                        resolved_base = resolved_base.final_target
+                    if resolved_base.path in followed:
+                        raise KeyError(base_path)  # noqa: TRY301
+                    followed.add(resolved_base.path)
             except (AliasResolutionError, CyclicAliasError, KeyError):
                 logger.debug("Base class %s is not loaded, or not static, it cannot be resolved", base_path)
             else:
